@@ -16,7 +16,8 @@ LF(ls) == [has |-> TRUE, lines |-> ls]
 NoCap == [has |-> FALSE, f |-> "", lines |-> <<>>]
 Cap(f, ls) == [has |-> TRUE, f |-> f, lines |-> ls]
 Side0 == <<>>
-SideAB == << [f |-> "a.txt", text |-> <<"side one", "side two">>], [f |-> "b", text |-> <<"dir abs">>] >>
+Side(f, ext, kind, text) == [f |-> f, ext |-> ext, kind |-> kind, text |-> text]
+SideAB == << Side("a.txt", ".abstract", "text", <<"side one", "side two">>), Side("b", ".abstract", "text", <<"dir abs">>) >>
 D(files, mode, lf, cap, side) ==
     [sel |-> "/d", files |-> files, mode |-> mode, lf |-> lf, cap |-> cap, side |-> side, srv |-> Srv]
 Std(lf) == D(AllFiles, "nonencoded", lf, NoCap, Side0)
@@ -91,7 +92,28 @@ FamE == {D(fs, mode, IF ls = <<>> THEN NoLF ELSE LF(ls), NoCap, side) :
         \cup {D(AllFiles, mode, NoLF, Cap("c.txt.gz", c), SideAB) : mode \in {"none", "nonencoded", "full"},
                                                                c \in {<<"Numb=1">>, <<"Name=Cap">>, <<"Type=X">>}}
 
-Cases == FamA \cup FamB \cup FamC \cup FamD \cup FamE
+(* Family F: side-car probes that FAIL instead of finding / not finding: a directory named like the side-car, *)
+(* a side-car whose open() fails (errno injected through the substituted open), and listed files whose name     *)
+(* plus extension exceeds NAME_MAX - for a file, a sub-directory and the listed directory itself, with and      *)
+(* without overrides of the same entry.                                                                          *)
+RECURSIVE Rep(_, _)
+Rep(c, n) == IF n = 0 THEN "" ELSE IF n % 2 = 0 THEN (LET h == Rep(c, n \div 2) IN h \o h) ELSE c \o Rep(c, n - 1)
+Long(n) == "l" \o Rep("o", n - 2) \o "g"                  \* a file name of n bytes (sorts after c.txt.gz)
+FailKinds == {"dir", "EACCES", "EIO", "EISDIR", "ENAMETOOLONG"}
+\* <<link file, .cap file>> that override entry f
+OverF(f) == {<<NoLF, NoCap>>, <<NoLF, Cap(f, <<"Name=Cap", "Numb=1">>)>>,
+             <<LF(<<"Path=./" \o f, "Name=Mid", "Numb=2">>), NoCap>>,
+             <<LF(<<"Path=./" \o f, "Abstract=from block">>), Cap(f, <<"Numb=-1">>)>>}
+FamF == UNION {{D(AllFiles, "nonencoded", o[1], o[2], <<Side(f, ext, k, <<"side one">>)>>) :
+                    ext \in {".abstract", ".3d", ".ask"}, k \in FailKinds, o \in OverF(f)} : f \in {"a.txt", "b"}}
+        \cup {D(AllFiles, "nonencoded", NoLF, NoCap, <<Side(".", ext, k, <<"side one">>)>>) :
+                 ext \in {".abstract", ".3d"}, k \in FailKinds}
+        \cup UNION {{D(<<"a.txt", Long(n)>>, mode, o[1], o[2], side) :
+                        mode \in IF Tier = "quick" THEN {"nonencoded"} ELSE {"none", "nonencoded", "full"},
+                        o \in OverF(Long(n)), side \in {Side0, <<Side("a.txt", ".abstract", "text", <<"side one">>)>>}} :
+                     n \in {246, 247, 252, 255}}
+
+Cases == FamA \cup FamB \cup FamC \cup FamD \cup FamE \cup FamF
 
 Init == dir \in Cases /\ phase = "case" /\ res = [judge |-> "", scope |-> FALSE, cls |-> "", kinds |-> <<>>]
 Eval == /\ phase = "case"
